@@ -7,13 +7,40 @@ SCRATCH = os.environ.get("LAZE_VERIF_SCRATCH", "/tmp/laze-verif-scratch")
 
 # ------------------------------------------------------------------ project → files / IR
 
+ALIASES = {"sharable": "shareable", "buildable": "is_builder", "disables": "conflicts"}
+
+
+def as_written(x):
+    """the in-memory project keeps an old spelling that serde still reads (`sharable`, `buildable`, a module's `disables`) under BOTH
+    names, so that every oracle that reads the project sees the meaning; the dict lists the old names it uses in `_alias`. The FILE
+    has the old spelling only (both at once would be a duplicate field)."""
+    if isinstance(x, list):
+        return [as_written(e) for e in x]
+    if isinstance(x, dict):
+        al = x.get("_alias")
+        drop = {ALIASES[a] for a in (al if isinstance(al, list) else []) if isinstance(a, str) and a in ALIASES} | {"_alias"}
+        return {k: as_written(v) for k, v in x.items() if k not in drop}
+    return x
+
+
+def as_meant(x):
+    """the same project with the documented spelling only (what is sent to the model)"""
+    if isinstance(x, list):
+        return [as_meant(e) for e in x]
+    if isinstance(x, dict):
+        al = x.get("_alias")
+        drop = {a for a in (al if isinstance(al, list) else []) if isinstance(a, str)} | {"_alias"}
+        return {k: as_meant(v) for k, v in x.items() if k not in drop}
+    return x
+
+
 def write_project(d, files):
     for path, docs in files.items():
         p = os.path.join(d, path)
         os.makedirs(os.path.dirname(p), exist_ok=True)
         with open(p, "w") as f:
             # "@ROOT@" in a file stands for the absolute path of the project directory (absolute includes)
-            f.write("\n---\n".join(json.dumps(doc, ensure_ascii=False) for doc in docs).replace("@ROOT@", os.path.realpath(d)))
+            f.write("\n---\n".join(json.dumps(as_written(doc), ensure_ascii=False) for doc in docs).replace("@ROOT@", os.path.realpath(d)))
             f.write("\n")
 
 
@@ -51,8 +78,6 @@ def ir_rule(r):
     r = dict(r)
     if isinstance(r.get("export"), list):
         r["export"] = ir_export(r["export"])
-    if "sharable" in r and "shareable" not in r:      # serde alias (the old spelling); both at once is a duplicate field: not generated
-        r["shareable"] = r.pop("sharable")
     return r
 
 
@@ -72,8 +97,6 @@ def ir_context(c):
         c["tasks"] = [[k, ir_task(v)] for k, v in c["tasks"].items()]
     if isinstance(c.get("rules"), list):
         c["rules"] = [ir_rule(r) for r in c["rules"]]
-    if "buildable" in c and "is_builder" not in c:    # serde alias
-        c["is_builder"] = c.pop("buildable")
     return c
 
 
@@ -88,8 +111,6 @@ def ir_module(m):
         m["env"] = {k: (pairs(v) if isinstance(v, dict) else v) for k, v in m["env"].items()}
     if isinstance(m.get("tasks"), dict):
         m["tasks"] = [[k, ir_task(v)] for k, v in m["tasks"].items()]
-    if "disables" in m and "conflicts" not in m:      # serde alias
-        m["conflicts"] = m.pop("disables")
     return m
 
 
@@ -110,7 +131,7 @@ def ir_doc(doc):
 
 def to_request(project, root, build_dir="build"):
     return {"op": "gen",
-            "files": [[p, [ir_doc(d) for d in docs]] for p, docs in project["files"].items()],
+            "files": [[p, [ir_doc(as_meant(d)) for d in docs]] for p, docs in project["files"].items()],
             "project_file": "laze-project.yml", "build_dir": build_dir,
             "project_root": root, "laze_bin": os.path.realpath(common.LAZE),
             "want_insights": bool(project.get("args", {}).get("info_export")),
